@@ -161,6 +161,42 @@ fn check_mixed(case: &Value, obs: &mut Obs) -> Result<(), String> {
     Ok(())
 }
 
+/// control flow as the element expression / predicate of a higher-order operator: the decision is taken afresh for every
+/// element (elements differ in which keys they have and in the truthiness of their values)
+fn gen_per_element() -> BoxedStrategy<Value> {
+    let leaf: gen::VS = prop_oneof![
+        2 => Just(json!({"missing": ["a"]})),
+        1 => Just(json!({"missing": ["a", "b"]})),
+        1 => Just(json!({"missing_some": [1, ["a", "b"]]})),
+        2 => Just(json!({"var": "a"})),
+        1 => Just(json!({"var": "b"})),
+        1 => Just(json!({"!": [{"var": "a"}]})),
+        2 => select(vec![json!("T"), json!("F"), json!(0), json!(""), json!([]), json!("incomplete"), json!("ok")]),
+        1 => observable(),
+    ]
+    .boxed();
+    let ctrl = leaf.prop_recursive(2, 12, 4, |inner| {
+        prop_oneof![
+            3 => vec(inner.clone(), 1..=5).prop_map(|v| json!({"if": v})),
+            1 => vec(inner.clone(), 1..=5).prop_map(|v| json!({"?:": v})),
+            2 => vec(inner.clone(), 1..=3).prop_map(|v| json!({"and": v})),
+            2 => vec(inner, 1..=3).prop_map(|v| json!({"or": v})),
+        ]
+        .boxed()
+    });
+    let rows = vec(select(vec![json!({"a": 1}), json!({"b": 2}), json!({"a": 3, "b": 4}), json!({}), json!({"a": 0}), json!({"a": null, "b": ""}), json!({"a": "x"}), json!({"b": []})]), 2..=5);
+    (select(vec!["map", "filter", "all", "some", "none", "reduce"]), ctrl, rows, any::<bool>())
+        .prop_map(|(op, c, rows, wrap)| {
+            let c = if wrap { json!({"cat": [c]}) } else { c };
+            let rule = match op {
+                "reduce" => json!({"map": [{"var": "rows"}, {"reduce": [[1], c, 0]}]}),
+                _ => op2(op, &json!({"var": "rows"}), &c),
+            };
+            json!({"rule": rule, "data": {"rows": rows}})
+        })
+        .boxed()
+}
+
 fn gen_mixed() -> BoxedStrategy<Value> {
     let cfg = rules::Cfg::new(&["if", "?:", "and", "or", "if", "and", "or", "==", "+", "cat", "var", "!", "map", "filter", "log", "<", "missing", "missing_some"]).poison(3).bad_arity(30);
     let inner = rules::expr(cfg.clone());
@@ -265,6 +301,18 @@ pub fn property() -> Property {
                 check: check_mixed,
                 quick: 100_000,
                 thorough: 5_000_000,
+                small_stack: false,
+            },
+            Sub {
+                name: "control_per_element",
+                about: "if / ?: / and / or (nested to depth 2) as the element expression or predicate of map / filter / all / some / none over 2-5 elements that differ in which keys they carry; the conditions see the element only through var, missing or missing_some; value and log multiset against the model: the decision is taken afresh for every element.",
+                nontrivial: "as control_exact.",
+                strategy: Some(gen_per_element),
+                fixed: None,
+                fixed_exhaustive: false,
+                check: check_mixed,
+                quick: 60_000,
+                thorough: 3_000_000,
                 small_stack: false,
             },
             Sub {
